@@ -95,7 +95,7 @@ def _one(args):
 
 def run(chk, drv):
     quick = chk.tier == 'quick'
-    n = 1 if quick else 20
+    n = 2 if quick else 20
     versions = [v for v in battlecheck.version_dirs() if v != ('wowp', '0_3_3')]
     chk.cov['rule'] = ('synthetic battles per bundled version (%d each): a case = (version, battle); non-trivial: the battle has events of >= 3 kinds '
                        'the controller aggregates; distinct by (version, battle seed). Recordings are covered by C05/C07 (trace and world).' % n)
